@@ -104,7 +104,7 @@ def generate(job):
         steps += [{"k": "foreign", "v": "", "pos": 1} for _ in range(rh.randint(1, 2))]
     steps.append({"k": "load", "v": "plain"})
     for _ in range(rh.randint(3, 8)):
-        steps.append({"k": rh.weighted([("load", 3), ("variant", 5), ("foreign", 3), ("other", 1), ("fail", 1), ("export", 2)]), "v": rh.choice(["alias", "include_dict", "include_file", "permuted", "expanded"]), "pos": rh.randint(1, 400)})
+        steps.append({"k": rh.weighted([("load", 3), ("variant", 5), ("foreign", 3), ("other", 1), ("fail", 1), ("export", 2), ("include_override", 2)]), "v": rh.choice(["alias", "include_dict", "include_file", "permuted", "expanded"]), "pos": rh.randint(1, 400)})
     steps.append({"k": "load", "v": "plain"})
     return {"card": card, "foreign": foreign, "other": other, "steps": steps, "data_seed": rs.randrange(1 << 30), "n": 5}
 
@@ -397,6 +397,51 @@ def execute(spec):
                     if d1.shape != d2.shape or not np.allclose(d1, d2, rtol=1e-10, atol=1e-300):
                         log.fail("variant-equivalent", "variant|%s|density" % v, "the %s form of the card gives a different density for the same parameters" % v, step=i)
                         raise Failure()
+                elif k == "include_override" and base_obs is not None:
+                    # documented: a definition in the card overrides the included one - also when the two are
+                    # spelled with different aliases (mass/m0, width/g0, P/Par)
+                    between += 1
+                    res = [n for n, v in card["particle"].items() if isinstance(v, dict) and not n.startswith("$") and "mass" in v and "J" in v]
+                    if res:
+                        rn = res[st["pos"] % len(res)]
+                        alias = {"mass": "m0", "width": "g0", "P": "Par"}
+                        field = ["mass", "width", "P"][st["pos"] % 3]
+                        orig = card["particle"][rn]
+                        if field in orig:
+                            newv = round(orig[field] * 1.07, 4) if field != "P" else -orig[field]
+                            plain = copy.deepcopy(card)
+                            plain["particle"][rn][field] = newv
+                            inc_spelling_alias = (st["pos"] // 3) % 2 == 0
+                            inc_def = {(alias.get(kk, kk) if inc_spelling_alias else kk): vv for kk, vv in orig.items()}
+                            local = {(field if inc_spelling_alias else alias[field]): newv}
+                            c2 = copy.deepcopy(card)
+                            c2["particle"][rn] = local
+                            c2["particle"]["$include"] = "inc_override"
+                            try:
+                                o_plain = observe(build(plain))
+                                cfgv = build(c2, {"inc_override": {rn: inc_def}})
+                                o_var = observe(cfgv)
+                            except Exception as e:
+                                import traceback
+
+                                tb = traceback.extract_tb(e.__traceback__)
+                                if "/verif/" in tb[-1].filename:
+                                    raise
+                                # a changed parity may leave no allowed chain in either form: both must refuse alike
+                                log.ev("include-override-refused", err=type(e).__name__)
+                                o_plain = o_var = None
+                            if o_plain is not None:
+                                for fld in ("canon", "qn", "ls", "trainable", "fixed"):
+                                    if o_plain[fld] != o_var[fld]:
+                                        log.fail("variant-equivalent", "variant|include_override|%s" % fld, "a local override of %s.%s (spelled %r) on top of an $include (spelled with the other alias) is not equivalent to the expanded card: %s differs" % (rn, field, list(local)[0], fld), step=i)
+                                        raise Failure()
+                                if field != "P":
+                                    pn = "%s_%s" % (rn, field)
+                                    pv = {kk: float(vv) for kk, vv in cfgv.get_params().items()}
+                                    if pn in pv and abs(pv[pn] - newv) > 1e-12:
+                                        log.fail("variant-equivalent", "variant|include_override|value", "local override %s=%r on top of an $include is ignored: the model holds %r" % (pn, newv, pv[pn]), step=i)
+                                        raise Failure()
+                                log.count("probe.include_override_checked")
                 elif k in ("foreign", "other"):
                     between += 1
                     try:
